@@ -487,6 +487,78 @@ theorem no_infinite_internal_run {c : Cfg} (hfx : c.fx = Fix.all) {conc0 : Nat} 
       exact ih (f (i + 1)) ⟨hi ▸ hreach i, a, ha, hi ▸ hs⟩ (i + 1) rfl
   exact key (f 0) ((terminates hfx conc0).apply (f 0)) 0 rfl
 
+/-! ### `Application.run()` over the pipeline series -/
+
+theorem appRun_spec (sd : Nat) (fi : Option Nat) :
+    ∀ (ps : List PipeSpec) (i : Nat) (stopping : Bool), (sd < i → stopping = true) →
+      ∀ j ∈ appRun ps i stopping (some sd) fi, i ≤ j ∧ ∃ p, ps[j - i]? = some p ∧ (sd < j → p.skippable = false)
+  | [], _, _, _, j, hj => by simp [appRun] at hj
+  | p :: ps, i, stopping, hst, j, hj => by
+    simp only [appRun] at hj
+    split at hj
+    · rename_i hskip
+      have hstt : stopping = true := by simp at hskip; exact hskip.1
+      obtain ⟨h1, q, h2, h3⟩ := appRun_spec sd fi ps (i + 1) stopping (fun _ => hstt) j hj
+      refine ⟨by omega, q, ?_, h3⟩
+      have : j - i = (j - (i + 1)) + 1 := by omega
+      rw [this]; simpa using h2
+    · rename_i hns
+      have here : i ≤ i ∧ ∃ q, (p :: ps)[i - i]? = some q ∧ (sd < i → q.skippable = false) := by
+        refine ⟨Nat.le_refl _, p, by simp, fun h => ?_⟩
+        have := hst h
+        cases hp : p.skippable
+        · rfl
+        · simp [this, hp] at hns
+      split at hj
+      · simp at hj; subst hj; exact here
+      · rcases List.mem_cons.mp hj with rfl | hj
+        · exact here
+        · have hst' : sd < i + 1 → (stopping || (some sd == some i)) = true := by
+            intro h
+            by_cases e : sd = i
+            · simp [e]
+            · simp [hst (by omega)]
+          obtain ⟨h1, q, h2, h3⟩ := appRun_spec sd fi ps (i + 1) _ hst' j hj
+          refine ⟨by omega, q, ?_, h3⟩
+          have : j - i = (j - (i + 1)) + 1 := by omega
+          rw [this]; simpa using h2
+
+/-- **After `Application.stop()` only non-skippable pipelines are started.**  If `stop()` is called while
+pipeline `d` runs, every pipeline started later is one that is not flagged skippable — for every series,
+every stop position and every failing pipeline. -/
+theorem app_after_stop_only_nonskippable (ps : List PipeSpec) (d : Nat) (fi : Option Nat) (j : Nat)
+    (hj : j ∈ appRun ps 0 false (some d) fi) (hd : d < j) : ∃ p, ps[j]? = some p ∧ p.skippable = false := by
+  obtain ⟨_, p, h2, h3⟩ := appRun_spec d fi ps 0 false (by omega) j hj
+  exact ⟨p, by simpa using h2, h3 hd⟩
+
+/-- **No new work after `Application.stop()`.**  If every pipeline whose source hands out work items is
+flagged skippable (the table the harness reads from the built application), then after a stop request no
+pipeline that takes work items is started: only housekeeping pipelines (start-up / shutdown) still run. -/
+theorem app_no_new_work_after_stop (ps : List PipeSpec) (hwf : ∀ p ∈ ps, p.work = true → p.skippable = true)
+    (d : Nat) (fi : Option Nat) (j : Nat) (hj : j ∈ appRun ps 0 false (some d) fi) (hd : d < j) :
+    ∃ p, ps[j]? = some p ∧ p.work = false := by
+  obtain ⟨p, h1, h2⟩ := app_after_stop_only_nonskippable ps d fi j hj hd
+  refine ⟨p, h1, ?_⟩
+  cases hw : p.work
+  · rfl
+  · have := hwf p (List.mem_of_getElem? h1) hw
+    simp [h2] at this
+
+/-- wpull's own series satisfies the hypothesis, and e.g. a stop during the download pipeline (1) leaves only
+the shutdown pipeline (4); a stop during start-up (0) skips the crawl; without the `skippable` flag on the link
+conversion pipeline (seeded change C13-7) it would be started after the stop -/
+example : (∀ p ∈ wpullSeries, p.work = true → p.skippable = true) ∧
+    appRun wpullSeries 0 false (some 1) none = [0, 1, 4] ∧ appRun wpullSeries 0 false (some 0) none = [0, 4] ∧
+    appRun wpullSeries 0 false none none = [0, 1, 2, 3, 4] ∧ appRun wpullSeries 0 false none (some 1) = [0, 1] ∧
+    appRun [⟨false, false⟩, ⟨true, true⟩, ⟨false, true⟩, ⟨true, false⟩, ⟨false, false⟩] 0 false (some 1) none = [0, 1, 3, 4] := by
+  decide
+
+/-- **Unrepaired code.**  With the download pipeline not flagged skippable (before fix 9d8c872) a stop during
+start-up still starts the download pipeline, which takes work items. -/
+theorem app_stop_during_startup_counterexample :
+    1 ∈ appRun [⟨false, false⟩, ⟨true, false⟩, ⟨false, true⟩, ⟨true, true⟩, ⟨false, false⟩] 0 false (some 0) none := by
+  decide
+
 /-! ### witnesses: non-vacuity, and the unrepaired code -/
 
 theorem reach_of_runActs {c : Cfg} {conc0 : Nat} :
